@@ -306,3 +306,47 @@ func Playout(t *rapid.T, p refchess.Pos, maxPlies int, visit func(ply int, p *re
 	}
 	return p
 }
+
+// LongShuffle plays between lo and hi plies that are reversible whenever possible (no pawn
+// moves, no captures), so that the halfmove clock and the history grow beyond 100 / 128.
+// It does not stop at a halfmove clock of 100.
+func LongShuffle(t *rapid.T, p refchess.Pos, lo, hi int) ([]refchess.Move, refchess.Pos) {
+	n := draw(t, lo, hi, "longPlies")
+	var ms []refchess.Move
+	var hist [2]refchess.Move
+	for i := 0; i < n; i++ {
+		legal := p.Legal()
+		if len(legal) == 0 {
+			break
+		}
+		var quiet []refchess.Move
+		for _, m := range legal {
+			k := p.Sq[m.From]
+			if k < 0 {
+				k = -k
+			}
+			if k != P && !p.IsCapture(m) {
+				quiet = append(quiet, m)
+			}
+		}
+		var m refchess.Move
+		switch {
+		case len(quiet) > 0 && !chance(t, 1, 60, "irreversible"):
+			back := refchess.Move{From: hist[i%2].To, To: hist[i%2].From}
+			m = quiet[draw(t, 0, len(quiet)-1, "qm")]
+			if hist[i%2] != (refchess.Move{}) && chance(t, 1, 2, "back") {
+				for _, q := range quiet {
+					if q == back {
+						m = q
+					}
+				}
+			}
+		default:
+			m = legal[draw(t, 0, len(legal)-1, "m")]
+		}
+		hist[i%2] = m
+		ms = append(ms, m)
+		p = p.Make(m)
+	}
+	return ms, p
+}
